@@ -18,7 +18,7 @@ RULE = (
     "reference (for the no-@ case: raises); control => compiles and the regex contains no '@'. Non-trivial: distinct (fault kind, definition placement) cells; distinct by canonical hash."
 )
 ASSUMPTIONS = ["names and operand vocabularies are @-free by construction, so an '@' in the regex can only come from an unexpanded reference"]
-FAULTS = ["control", "control", "item", "operand", "deref-value", "key-times", "key-operands", "under-or", "under-not", "in-body-first", "in-body-last", "delete-def", "unpassed-file", "no-at-name"]
+FAULTS = ["control", "control", "item", "operand", "deref-value", "key-times", "key-operands", "under-or", "under-not", "in-body-first", "in-body-last", "delete-def", "unpassed-file", "no-at-name", "alias-to-undefined", "shared-lib-second-rule"]
 FLOORS = {f"fault={f}": 0.03 for f in set(FAULTS)}
 UNDEF = ["@zz_", "@undefined_", "@nope_"]
 
@@ -67,6 +67,18 @@ def cases(draw):
         newm = {"name": "@mz_", "pattern": [body]}
         factored.append("@mz_")
         macros = [newm] + macros if fault == "in-body-first" else macros + [newm]
+    elif fault == "alias-to-undefined":
+        # a string macro whose replacement text is (or contains) a reference that has no definition
+        body = draw(st.sampled_from([u, "%" + u, "x" + u]))
+        macros = macros + [{"name": "@alias_", "pattern": body}] if draw(st.booleans()) else [{"name": "@alias_", "pattern": body}] + macros
+        if opers and draw(st.booleans()):
+            c, i = draw(st.sampled_from(opers))
+            c.insert(draw(st.integers(0, len(c))), "@alias_")
+        else:
+            c, i = draw(st.sampled_from(items))
+            c.insert(draw(st.integers(0, len(c))), draw(st.sampled_from(["@alias_", {"mov": ["@alias_"]}])))
+    elif fault == "shared-lib-second-rule":
+        pass  # built in evaluate: the faulted rule is compiled after a valid rule that shares its extra macro file
     elif fault == "delete-def":
         k = draw(st.integers(0, len(macros) - 1))
         expect_name = macros[k]["name"]
@@ -122,6 +134,16 @@ def evaluate(case):
     doc = jasm_io.make_doc(case["factored"], macros=case["macros_in_file"] or None)
     r = jasm_io.compile_rule(doc, macros=paths or None)
     fault = case["fault"]
+    if fault == "shared-lib-second-rule":
+        # first a valid rule that defines @inner_, then - same process, same unchanged library file - a rule that does not
+        lib = sc.write("c19_shared_lib.yaml", jasm_io.dump_yaml({"macros": [{"name": "@lib_", "pattern": [{"$and": ["@inner_", "ret"]}]}]}))
+        first = jasm_io.compile_rule(jasm_io.make_doc(["@lib_"], macros=[{"name": "@inner_", "pattern": "mov"}]), macros=[lib] + paths)
+        doc = jasm_io.make_doc(["@lib_"] + case["factored"], macros=case["macros_in_file"] or [{"name": "@spare_", "pattern": "spare"}])
+        r = jasm_io.compile_rule(doc, macros=[lib] + paths)
+        case = dict(case, expect_name="@inner_")
+        if first[0] != "ok":
+            ev.dev("valid-macro-rule-rejected", error=list(first[1:]))
+            return ev
     ev.tags = [f"fault={fault}", f"placement={case['placement']}"]
     ev.nontrivial = True
     ev.keys = [(fault, case["placement"], jasm_io.dump_yaml(case["factored"]))]
@@ -142,6 +164,18 @@ def evaluate(case):
     if case["expect_name"] is not None and fault != "delete-def":
         if case["expect_name"] not in msg:
             ev.dev("error-does-not-name-the-reference", fault=fault, expected=case["expect_name"], error=list(r[1:]))
+    elif fault == "alias-to-undefined":
+        # a string macro whose replacement text is (or contains) a reference that has no definition
+        body = draw(st.sampled_from([u, "%" + u, "x" + u]))
+        macros = macros + [{"name": "@alias_", "pattern": body}] if draw(st.booleans()) else [{"name": "@alias_", "pattern": body}] + macros
+        if opers and draw(st.booleans()):
+            c, i = draw(st.sampled_from(opers))
+            c.insert(draw(st.integers(0, len(c))), "@alias_")
+        else:
+            c, i = draw(st.sampled_from(items))
+            c.insert(draw(st.integers(0, len(c))), draw(st.sampled_from(["@alias_", {"mov": ["@alias_"]}])))
+    elif fault == "shared-lib-second-rule":
+        pass  # built in evaluate: the faulted rule is compiled after a valid rule that shares its extra macro file
     elif fault == "delete-def":
         # the deleted macro may have been used only inside another deleted-free body or not at all after nesting; it was used at creation time, so it must be named
         if case["expect_name"] not in msg:
